@@ -59,6 +59,31 @@ def gen(rng, m=None, n=None, klass=None, max_m=8, max_n=12) -> tuple[np.ndarray,
     return np.ascontiguousarray(J, dtype=np.float64), klass
 
 
+def fw_revisit(rng, n):
+    """Matrices on which Frank-Wolfe takes a FULL step to a vertex that belongs to the optimal face and therefore comes back to it
+    later (round 14).  In the plane: the minimum-norm point (0, h) lies inside the segment between a = (-p, h) and b = (q, h); every
+    other row lies above the line y = h; one of them, far to the right, is less aligned with a than b is (so the second step does
+    not go to b), and the mean is long enough for a to lie in the ball of diameter [0, mean] (first step: gamma = 1).  The plane is
+    then rotated into n dimensions, scaled, and the rows are shuffled.  Only properties of the INPUT are tested while drawing."""
+    for _ in range(200):
+        h = rng.uniform(0.5, 3)
+        p, q = rng.uniform(0.3, 2, size=2)
+        d = rng.uniform(0, 1)
+        rows = [(-p, h), (q, h), (q + rng.uniform(0.2, 3) + h * d / p, h + d)]
+        for _ in range(int(rng.integers(0, 4))):
+            rows.append((rng.uniform(-p, 4), h + rng.uniform(0.5, 4)))
+        J = np.array(rows)
+        mu = J.mean(axis=0)
+        if mu @ J[0] >= J[0] @ J[0] and int(np.argmin(J @ mu)) == 0:
+            break
+    if n > 2:
+        Q, _ = np.linalg.qr(rng.standard_normal((n, n)))
+        J = np.hstack([J, np.zeros((len(J), n - 2))]) @ Q
+    J = J * 10.0 ** rng.uniform(-1, 1)
+    rng.shuffle(J)
+    return J
+
+
 def krum_hostile(rng, dname):
     """Matrices from the setting Krum exists for.  (a) a few nearly agreeing honest rows + attacker rows many orders of magnitude
     larger (sums of distances must not absorb the honest ones); (b) more than 25 rows sharing a large common component with a tiny
